@@ -22,15 +22,30 @@ type vpConn struct {
 	out    []byte
 	closed int
 	remote string
+	// hook, when set, runs once, just before the server is handed the input byte at position
+	// hookAt (C16: something happens between two calls of one connection); reads never cross it
+	hookAt int
+	hook   func()
 }
 
 func (c *vpConn) Read(p []byte) (int, error) {
 	c.mu.Lock()
+	if c.hook != nil && c.pos >= c.hookAt {
+		h := c.hook
+		c.hook = nil
+		c.mu.Unlock()
+		h()
+		c.mu.Lock()
+	}
 	defer c.mu.Unlock()
 	if c.pos >= len(c.in) {
 		return 0, io.EOF
 	}
-	n := copy(p, c.in[c.pos:])
+	end := len(c.in)
+	if c.hook != nil && c.hookAt > c.pos && c.hookAt < end {
+		end = c.hookAt
+	}
+	n := copy(p, c.in[c.pos:end])
 	c.pos += n
 	return n, nil
 }
